@@ -312,6 +312,8 @@ def _split_value(out):
 def total_agree(case, impl_out, model_out, profile):
     if impl_out == model_out:
         return True
+    if impl_out.startswith("amb ") and model_out.startswith("amb "):
+        impl_out, model_out = impl_out[4:], model_out[4:]
     if impl_out.startswith("re=ok:") and model_out.startswith("re=ok:") and " | ser2=" in impl_out and " | ser2=" in model_out:
         # strings that are not canonical Shift-JIS (mutated files, random bytes): the model carries the raw bytes, the
         # library the decoded string (A-codec); compare through the library's own codec call.  The re-serialization is
@@ -327,10 +329,7 @@ def total_agree(case, impl_out, model_out, profile):
         if mv2 == mv:
             return False          # every string canonical: the lines had to be equal
         return iv == mv2
-    if impl_out.startswith("amb ") or model_out.startswith("amb "):
-        # the table label on two addresses: find_label_address returns the first hit in HASH order, the library's own
-        # answer varies from run to run; only the outcome class is comparable
-        return (impl_out == "PANIC") == (model_out == "PANIC") and impl_out.startswith("amb ") == model_out.startswith("amb ")
+    # (the table label on two addresses, prefix "amb": since fix 10408e9 the lookup returns the lowest address on both sides)
     return impl_out == model_out
 
 
